@@ -138,6 +138,22 @@ FetchReply(b) == [op |-> "fetch", res |-> IF b \in Visible THEN "ok" ELSE "notex
 StatReply(S) == [op |-> "stat", res |-> "ok", list |-> SortedSeq(S \cap Visible)]
 EnumReply(after, limit) == [op |-> "enum", res |-> "ok", list |-> Prefix(SortedSeq({b \in Visible : b > after}), limit)]
 
+(* Fetch under replica loss: the read replicas in F are lost for this call (every call on them fails with an error
+   that is not "does not exist").  The code walks the read replicas in configuration order (here: index order),
+   returns the first success and otherwise the LAST replica's answer.  Deviation "FetchStopsAtError": the walk goes
+   on only after a not-exist answer and stops at the first other error (a seeded change, kept as a sensitivity run). *)
+MinOf(S) == CHOOSE x \in S : \A y \in S : x <= y
+MaxOf(S) == CHOOSE x \in S : \A y \in S : y <= x
+FetchWalk(b, F) ==
+  LET up == {i \in Rd \ F : b \in has[i]}
+      dn == Rd \cap F
+  IN IF "FetchStopsAtError" \in Deviations
+     THEN IF up # {} /\ (dn = {} \/ MinOf(up) < MinOf(dn)) THEN "ok"
+          ELSE IF dn # {} THEN "failed" ELSE "notexist"
+     ELSE IF up # {} THEN "ok"
+          ELSE IF dn # {} /\ MaxOf(Rd) \in dn THEN "failed" ELSE "notexist"
+FetchF(b, F) == Idle /\ reply' = [op |-> "fetch", res |-> FetchWalk(b, F), list |-> <<>>]
+                /\ UNCHANGED <<cfgvars, has, call, outcome, done, nSuccess, ret, acked, removedOk, copiesAtAck, pendingBg>>
 Fetch(b) == Idle /\ reply' = FetchReply(b)
             /\ UNCHANGED <<cfgvars, has, call, outcome, done, nSuccess, ret, acked, removedOk, copiesAtAck, pendingBg>>
 Stat(S) == Idle /\ reply' = StatReply(S)
@@ -145,7 +161,7 @@ Stat(S) == Idle /\ reply' = StatReply(S)
 Enumerate(a, l) == Idle /\ reply' = EnumReply(a, l)
                    /\ UNCHANGED <<cfgvars, has, call, outcome, done, nSuccess, ret, acked, removedOk, copiesAtAck, pendingBg>>
 
-Next == \/ \E b \in Blobs : RecvStart(b) \/ RemoveStart(b) \/ Fetch(b)
+Next == \/ \E b \in Blobs : RecvStart(b) \/ RemoveStart(b) \/ Fetch(b) \/ (\E F \in SUBSET Rd : FetchF(b, F))
         \/ \E i \in Stores : ReplicaDone(i) \/ LateDone(i) \/ RemoveDone(i)
         \/ \E p \in pendingBg : Straggler(p)
         \/ RecvRet \/ RemoveRet
@@ -162,6 +178,10 @@ ErrOnlyBelowQuorum == (call.op = "recv" /\ ret = "err") => (done = W /\ nSuccess
 Decided == (call.op = "recv" /\ done = W) => ret # "pending"
 (* a blob stays fetchable as long as one read replica holds it; stat/enumerate list it exactly once *)
 ReadsSurvive == \A b \in Blobs : (\E i \in Rd : b \in has[i]) <=> FetchReply(b).res = "ok"
+(* ... also when any subset F of the read replicas is lost, as long as a surviving one holds it *)
+ReadsSurviveLoss == \A b \in Blobs : \A F \in SUBSET Rd :
+                      /\ ((\E i \in Rd \ F : b \in has[i]) <=> FetchWalk(b, F) = "ok")
+                      /\ (F = {} => FetchWalk(b, F) = FetchReply(b).res)
 ExactlyOnce == \A S \in SUBSET Blobs :
                  LET l == StatReply(S).list IN Cardinality({l[k] : k \in 1..Len(l)}) = Len(l)
 (* beyond C12 (C01/C13/C14): an acknowledged removal stays in force until the blob is received again *)
